@@ -151,7 +151,7 @@ class Gen:
                 backends = [extra + ['--dep-management', 'dynamic-hash-table'], extra + ['--dep-management', 'index-array']]
             for a in backends:
                 progs.append(Program(f[:-4], path, ['--noline', '-E'] + a, ref.flags, ref.cwd, 'corpus',
-                                     expect_fail='expect-reject' in head))
+                                     expect_fail=('ptgpp' if 'expect-ptgpp-reject' in head else ('expect-reject' in head))))
         return progs
 
     def programs(self, tier, both_backends=None, subset=None, extra_dir=None):
